@@ -56,10 +56,17 @@ def dual_ops(rs, rx):
         ('tee_map(count,max;zip)', lambda: rs.ops.tee_map(rs.ops.count(), rs.math.max(), join='zip')),
         ('tee_map(filter,map;combine_latest)', lambda: rs.ops.tee_map(rx.pipe(rs.ops.filter(lambda i: i % 2 == 0)), rx.pipe(rs.ops.map(lambda i: i * 10)), join='combine_latest')),
         ('tee_map(map,map;merge)', lambda: rs.ops.tee_map(rx.pipe(rs.ops.map(lambda i: i + 100)), rx.pipe(rs.ops.map(lambda i: i - 100)), join='merge')),
+        # the rest of the operators named by C01 (groups are never empty here, so first / last are inside the property)
+        ('starmap(+)', lambda: rx.pipe(rs.ops.map(lambda i: (i, 1)), rs.ops.starmap(lambda a, b: a + b))),
+        ('flat_map', lambda: rx.pipe(rs.ops.map(lambda i: [i, i + 1]), rs.ops.flat_map())),
+        ('first', lambda: rs.ops.first()), ('last', lambda: rs.ops.last()),
+        ('stddev', lambda: rs.math.stddev()), ('formal.stddev(reduce)', lambda: rs.math.formal.stddev(reduce=True)),
+        ('to_array(d)', lambda: rx.pipe(rs.data.to_array('d'), rs.ops.map(list))),
+        ('progress', lambda: rs.ops.progress('c01', 1000, measure_throughput=False)),
     ]
 
 
-NUMERIC_ONLY = {'clip(1,5)', 'variance', 'formal.variance', 'mean()', 'max()', 'min(reduce)', 'sum()', 'sum(reduce)', 'map(+1)', 'map(*2)',
+NUMERIC_ONLY = {'starmap(+)', 'flat_map', 'stddev', 'formal.stddev(reduce)', 'to_array(d)', 'clip(1,5)', 'variance', 'formal.variance', 'mean()', 'max()', 'min(reduce)', 'sum()', 'sum(reduce)', 'map(+1)', 'map(*2)',
                 'filter(odd)', 'filter(truthy int)', 'scan(sum)', 'assert_(>=0)'}
 
 
@@ -69,7 +76,7 @@ def compatible(names):
     for n in names:
         if n in NUMERIC_ONLY and not numeric:
             return False
-        if n.startswith('batch') or n == 'to_list' or n.startswith('tee_map(count') or n.startswith('tee_map(filter'):
+        if n.startswith('batch') or n == 'to_list' or n.startswith('to_array') or n.startswith('tee_map(count') or n.startswith('tee_map(filter'):
             numeric = False
         if n == 'mean()':
             pass
@@ -104,7 +111,11 @@ def check_c01(opts):
             if len(items) > 1: distinct.add((tuple(names), tuple(items)))
             exp = [p[0] if isinstance(p, list) and p else p for p in plain]
             if any(isinstance(p, tuple) and p and p[0] == 'ERROR' for p in plain):
-                continue        # the plain pipeline itself raises on this input (e.g. mean of nothing): outside the property
+                if len(pipe) == 1:
+                    # a single dual-mode operator on a non-empty group of small ints has nothing to raise about: both modes being broken in
+                    # the same way is not "transparent multiplexing" (this is how rs.ops.progress went unnoticed)
+                    fails.append({'pipeline': names, 'input': items, 'problem': 'the operator raises on a plain non-empty group', 'plain': str(plain)[:200]})
+                continue        # the plain pipeline itself raises on this input (e.g. first after a filter that keeps nothing): outside the property
             if mux != exp:
                 fails.append({'pipeline': names, 'input': items, 'key': 'i % 3', 'expected_per_group(plain)': exp, 'got(mux)': mux})
     # two levels of keys: group_by(i % 2) > group_by(i % 3): consecutive items with the same inner key under different outer keys, and vice versa
@@ -557,7 +568,26 @@ def check_c09(opts):
     got = run_mux([], rs.ops.scan(lambda a, i: a + i, 7, reduce=True))
     evals += 1
     if got != [7]: fails.append({'pipeline': 'scan(add, 7, reduce=True) on empty source', 'expected': [7], 'got': got})
-    return result('e2e.C09.scan', '4 accumulators (incl. mutating) x reduce x terminator x 4 inputs under group_by', evals, evals, fails, False, t0)
+    # operators defined through scan with an object seed built by a factory (dist.update) or a tuple state (progress): one accumulator per key
+    try:
+        import distogram
+        D = rs.math.dist
+        items = [1.0, 10.0, 2.0, 20.0, 3.0, 30.0, 4.0]
+        summ = lambda h: (distogram.count(h), distogram.bounds(h))
+        got = run_mux(items, rs.ops.group_by(lambda i: i >= 10, rx.pipe(D.update(reduce=True), rs.ops.map(summ))))
+        exp = [summ(run_plain(g, D.update(reduce=True))[0]) for g in group_by_spec(items, lambda i: i >= 10)]
+        evals += 1
+        if got != exp: fails.append({'pipeline': 'group_by(i >= 10, [dist.update(reduce=True), (count, bounds)])', 'input': items, 'expected': exp, 'got': got})
+        got = run_mux(items, rs.data.roll(2, 2, [D.update(reduce=True), rs.ops.map(summ)]))
+        exp = [summ(run_plain(w, D.update(reduce=True))[0]) for w in (items[0:2], items[2:4], items[4:6], items[6:])]
+        evals += 1
+        if got != exp: fails.append({'pipeline': 'roll(2,2,[dist.update(reduce=True), (count, bounds)])', 'input': items, 'expected': exp, 'got': got})
+    except ImportError:
+        pass
+    got = run_mux([5, 6, 7, 8, 9], rs.ops.group_by(lambda i: i % 2, rx.pipe(rs.ops.progress('c09', 1000, measure_throughput=False), rs.data.to_list())))
+    evals += 1
+    if got != [[5, 7, 9], [6, 8]]: fails.append({'pipeline': 'group_by(i%2, [progress, to_list])', 'input': [5, 6, 7, 8, 9], 'expected': [[5, 7, 9], [6, 8]], 'got': got})
+    return result('e2e.C09.scan', '4 accumulators (incl. mutating) x reduce x terminator x 4 inputs under group_by; successive windows; dist.update and progress per key', evals, evals, fails, False, t0)
 
 
 def check_c10(opts):
